@@ -197,9 +197,9 @@ func (e *Explorer) run(choices []int, probeAt int, follow bool) *runResult {
 	e.stat.Steps += int64(x.Steps())
 	if x.Fail == nil && !x.Pruned && probeAt < 0 {
 		if e.sc.Final != nil {
-			e.sc.Final(x, rr.ctx)
+			x.Fail = safeFinal(e.sc, x, rr.ctx)
 		}
-		if e.sc.Check != nil {
+		if x.Fail == nil && e.sc.Check != nil {
 			if f := e.sc.Check(x, rr.ctx); f != nil {
 				x.Fail = f
 			}
@@ -374,6 +374,30 @@ func (e *Explorer) explore(prefix []int) {
 	}
 }
 
+// safeFinal runs the sequential epilogue of a scenario; a panic raised by golib there (a misuse
+// panic of a lock, an index out of range, a shim's "would block forever") is a violation of the
+// execution, not a failure of the explorer.
+func safeFinal(sc Scenario, x *core.Exec, ctx any) (f *core.Failure) {
+	defer func() {
+		if p := recover(); p != nil {
+			st := string(debug.Stack())
+			site := "harness"
+			for _, ln := range strings.Split(st, "\n") {
+				if strings.HasPrefix(ln, "github.com/welllog/golib/") && !strings.Contains(ln, "/vshim/") {
+					site = strings.TrimPrefix(ln, "github.com/welllog/golib/")
+					if i := strings.LastIndex(site, "("); i > 0 {
+						site = site[:i]
+					}
+					break
+				}
+			}
+			f = &core.Failure{Sig: "panic|epilogue|" + strings.ReplaceAll(site, "[...]", ""), What: fmt.Sprintf("panic in the sequential epilogue after all threads had finished (drain / final reads on the object the threads left behind): %v", p)}
+		}
+	}()
+	sc.Final(x, ctx)
+	return nil
+}
+
 // KnownSigs holds the signatures (with the scenario class appended, as they are reported) of the
 // findings recorded as known for this property; set by Main in the parent and in every worker.
 var KnownSigs = map[string]bool{}
@@ -459,9 +483,9 @@ func Replay(sc Scenario, schedule []int, probe string) (*core.Failure, []*core.O
 		f = x.Fail
 		if f == nil && !x.Pruned {
 			if sc.Final != nil {
-				sc.Final(x, ctx)
+				f = safeFinal(sc, x, ctx)
 			}
-			if sc.Check != nil {
+			if f == nil && sc.Check != nil {
 				f = sc.Check(x, ctx)
 			}
 		}
